@@ -54,13 +54,9 @@ def parseOverride (s : String) : Option (List (Bytes × Nat)) :=
     | [n, fl] => do pure (← hexArg n, ← natArg fl)
     | _ => none
 
-def opTxn (op : String) (a : List String) (st : DrvState) : Option (DrvState × String) :=
+def opTxnCore (op : String) (a : List String) (st : DrvState) : Option (DrvState × String) :=
   match op, a with
   | "clock.reset", [] => some ({ st with envs := [] }, "ok")
-  | "env.new", [id, native, hack, pad, ro, ovr, _sw] =>
-    -- "sw": the tomb sweeper is configured; the cut-off it implies is an argument of every
-    -- transaction op
-    opTxn "env.new" [id, native, hack, pad, ro, ovr] st
   | "env.new", [id, native, hack, pad, ro, ovr] => do
     let native ← boolArg native
     let hack ← boolArg hack
@@ -196,5 +192,29 @@ where
     | "T+1" => some (i.env.lastTxn + 1)
     | "R" => some i.lastRet
     | s => natArg s
+
+/-- derived operations (an abbreviation, or an application commit followed by a core operation) -/
+def opTxn (op : String) (a : List String) (st : DrvState) : Option (DrvState × String) :=
+  match op, a with
+  | "env.new", [id, native, hack, pad, ro, ovr, _sw] =>
+    -- "sw": the tomb sweeper is configured; the cut-off it implies is an argument of every
+    -- transaction op
+    opTxnCore "env.new" [id, native, hack, pad, ro, ovr] st
+  | "txn.loadheld", [id, snap, lastSynced, now, cutoff, ops] => do
+    -- the application commits while LoadOnce waits for the write lock: the commit comes first
+    -- (lastSynced is read off the state before it, as the caller did)
+    let i ← st.getEnv id
+    if i.cfg.native then none else
+    let ls ← opTxnCore.relTxn i lastSynced
+    let ops ← (listArg ops ',').mapM parseAppOp
+    let env1 := (appTxn i.env ops).getD i.env
+    opTxnCore "txn.load" [id, snap, toString ls, now, cutoff] (st.setEnv id { i with env := env1 })
+  | "txn.sendheld", [id, now, cutoff, ops] => do
+    let i ← st.getEnv id
+    if i.cfg.native then none else
+    let ops ← (listArg ops ',').mapM parseAppOp
+    let env1 := (appTxn i.env ops).getD i.env
+    opTxnCore "txn.send" [id, now, cutoff] (st.setEnv id { i with env := env1 })
+  | _, _ => opTxnCore op a st
 
 end Ls.Drv
